@@ -14,7 +14,7 @@ CHECKS = {
         design="6 C13"),
     "C05": dict(
         level="model_checking",
-        technique="TLA+ spec Pstate model-checked with TLC over all operation histories (MC_Pstate); TLC-generated behaviours replayed into the real State; recorded random histories validated by PstateTrace",
+        technique="TLA+ spec Pstate model-checked with TLC over all operation histories (MC_Pstate); TLC-generated behaviours replayed into the real State; recorded random and bulk (hundreds to thousands of particles) histories validated by PstateTrace; identity invariants of LadimTrace evaluated on every snapshot and record of complete runs",
         text="TLC checks the identity invariants (dense increasing pids, pid[k] >= k, never reused, values follow the particle, arrays equally long, compactify removes exactly the dead in order) over every history of append/kill/compactify/update within the bound; every behaviour TLC generates to the GEN depth plus simulated deep ones is stepped through the real ladim.state.State with the projection compared after each operation, and long random histories recorded from the real State are validated against the same operators.",
         note="Trusted: the mapping of abstract operations to State calls (as LADiM's own release/IBM/output modules use them), TLC.",
         design="6 C05"),
@@ -32,7 +32,7 @@ CHECKS = {
         design="6 C03"),
     "C02": dict(
         level="model_checking",
-        technique="TLA+ spec Interp/Vertical/Fields: sampling geometry model-checked with TLC (MC_Interp) for all sub-rectangles/masks/positions; exact lattice trace validation of the real Grid+Forcing on identifying node values (ForceTrace)",
+        technique="TLA+ spec Interp/Vertical/Fields: sampling geometry model-checked with TLC (MC_Interp) for all sub-rectangles/masks/positions; exact lattice trace validation of the real Grid+Forcing on identifying node values (ForceTrace): random probes plus every quarter-cell point x depth ladder on a few grids, three stretching curves, packed / float / offset storage differing from file to file, ROMS and nan land fill values",
         text="TLC checks, for every legal sub-rectangle, window mask and quarter-cell position of the valid/clipped region, that the local index arithmetic denotes the declarative corners, stays inside the loaded arrays, masks exactly the land faces, and that the weights are convex and exact on linear fields; generated grids (land, variable bathymetry, 2-3 levels, sub-rectangles, packed/float) with node values that identify every index and weight are run through the real Grid and Forcing and every probe value (velocity at three fractional times, variables, scalar) is validated by TLC with integer equality.",
         note="Lattice probes only (quarter cells; level gaps 20/40 m); at exact cell edges either neighbouring own cell is accepted. Off-lattice numerics are not examined (DESIGN 7).",
         design="6 C02"),
@@ -56,7 +56,7 @@ CHECKS = {
         design="6 C06"),
     "C09": dict(
         level="model_checking",
-        technique="Tracker.tla model-checked with TLC (MC_Tracker: StaysInWater inductive step, DeadStayDead, InactiveNotMoved, KilledNotMoved for all masks / positions / displacements); LadimTrace move-outcome clauses (kill / inactive / land-cancel / moved with interval semantics) evaluated by TLC on every tracker step of directed coast scenarios, with vacuity counters per outcome",
+        technique="Tracker.tla model-checked with TLC (MC_Tracker: StaysInWater inductive step, DeadStayDead, InactiveNotMoved, KilledNotMoved for all masks / positions / displacements); LadimTrace move-outcome clauses (kill / inactive / land-cancel / moved with interval semantics) evaluated by TLC on every tracker step of directed coast scenarios, with vacuity counters per outcome; TrackTrace on the real Tracker with scripted diffusion among land cells and on the small-scope exhaustive space of MC_Tracker (every land pattern of a 3 x 2 window x quarter-cell positions x 169 displacements)",
         text="For every living particle of every recorded tracker step TLC recomputes the candidate position from the velocities the tracker was given (scheme tableau) and requires the logged outcome to be one of: killed (candidate outside the valid region; dead and inactive, not moved), inactive (not moved), cancelled (candidate on land; not moved), moved; living particles are in the valid region, in a sea cell, finite; no dead particle is alive again in any later snapshot or record.",
         note="Interval semantics within 4/65536 cell of the margin or of a cell edge. Velocity correctness is C02/C03.",
         design="6 C09"),
@@ -74,13 +74,13 @@ CHECKS = {
         design="6 C12"),
     "C16": dict(
         level="model_checking",
-        technique="TLA+ spec Geo (sample2D, bilinear lon/lat) model-checked with TLC (MC_Geo); trace validation of the real sample2D, Grid.xy2ll/ll2xy, lon/lat release and lon/lat output (GeoTrace)",
+        technique="TLA+ spec Geo (sample2D, bilinear lon/lat) model-checked with TLC (MC_Geo); trace validation of the real sample2D (incl. nan / inf / fill values under the mask), Grid.xy2ll / ll2xy / lonlat (bilinear and nearest), onland / atsea, lon/lat release and lon/lat output (GeoTrace)",
         text="TLC checks exactness on bilinear fields, convexity, masked nodes ignored and the outside rule for every small field/mask/position in the bound; the real sample2D is validated exactly on random integer fields/masks/positions (incl. outside with substitute 0, undefined values), xy2ll exactly on lattice probes of curved coordinate tables for random sub-rectangles, the ll2xy round trip and releases given by lon/lat through their post-condition (interpolated lon/lat at the resulting position equal the given ones within the solver tolerance), and lon/lat written with a record (sparse and dense) as the bilinear value at X, Y of the same record.",
         note="Newton convergence itself is not modelled; every recorded inversion is checked through its residual. Coordinate tables on a 2^-10 degree lattice.",
         design="6 C16"),
     "C15": dict(
         level="model_checking",
-        technique="TLA+ spec Tracker (MoveV / Reflect) model-checked with TLC (MC_Tracker: InColumn for all depths and displacements); exact lattice trace validation of the real Tracker with scripted forcing and scripted random generator (TrackTrace)",
+        technique="TLA+ spec Tracker (MoveV / Reflect) model-checked with TLC (MC_Tracker: InColumn for all depths and displacements); exact lattice trace validation of the real Tracker with scripted forcing and scripted random generator (TrackTrace), random scenarios plus every start depth x displacement on a 1 m ladder; LadimTrace move.z_unchanged on complete runs without vertical motion",
         text="TLC checks 0 <= Z' <= h for every depth, bottom depth and vertical displacement |dz| < h in the bound; real tracker steps with vertical diffusion (injected draws) and/or vertical advection over cell-to-cell varying bathymetry, start depths at 0 / near 0 / mid / near h / h, with simultaneous horizontal advection across cells, are validated by TLC: the new depth equals the reflection about surface and bottom of the cell occupied when the step began, lies in that water column whenever |dz| < h, and is unchanged with both switched off.",
         note="Scripted forcing: velocities uniform per particle so that displacements are on the lattice. The composition aspect (stale per-particle forcing arrays) is C14.",
         design="6 C15"),
@@ -104,13 +104,13 @@ CHECKS = {
         design="6 C17"),
     "C14": dict(
         level="model_checking",
-        technique="MC_Ladim (Independent, CacheAligned; control configuration with the pinned cache placement refuted by TLC); PairTrace (relations between paired runs: same / subset / shift, per-particle keys and bit-for-bit digests) decided by TLC on families of real runs, each run validated by LadimTrace",
+        technique="MC_Ladim (Independent, CacheAligned; control configuration with the pinned cache placement refuted by TLC); PairTrace (relations between paired runs: same / subset / shift, per-particle keys and bit-for-bit digests) decided by TLC on families of real runs, each run validated by LadimTrace; families with release rows given by longitude / latitude on curved grids (the conversion of a row must not depend on the other rows)",
         text="For every family TLC requires: the repeated run reproduces records, files and particle variables exactly (digests of the raw bytes); with single release rows removed or rows reordered every remaining particle (matched by release row and occurrence) has the identical trajectory and age in every record up to renumbering; with every time of the set-up shifted by whole steps all records are identical at the shifted times. Deaths of whole release rows are scheduled right before output steps and a quarter of the families use vertical advection, the compositions in which a stale per-particle forcing cache shows.",
         note="Diffusion off. In continuous mode rows are only removed from release times that keep another row (removing a whole file time changes the schedule by definition).",
         design="6 C14"),
     "C10": dict(
         level="model_checking",
-        technique="Clock/Frames/Release specs written in simulation time (one scenario for both directions; MC_Clock MirrorLaw, MC_Frames reversed traversal); LadimTrace on reversed runs (clock, release times, output time coordinate); PairTrace mirror relation on reversed run vs forward run on mirrored, sign-flipped files",
+        technique="Clock/Frames/Release specs written in simulation time (one scenario for both directions; MC_Clock MirrorLaw, MC_Frames reversed traversal); LadimTrace on reversed runs (clock, release times, output time coordinate); PairTrace mirror relation on reversed run vs forward run on mirrored, sign-flipped files (all three velocity components, with and without vertical advection)",
         text="Every reversed scenario is run reversed and forward on harness-generated mirrored files with negated velocity; TLC validates both traces against the composed specification (clock reads S, S-dt, ...; releases at their stated times; time coordinate) and decides the pairing: record k of the reversed run and record k of the mirrored run hold the same particles (pids) with bit-identical positions, at mirrored times.",
         note="Mirrored inputs are generated by the harness (frame order reversed, t -> axis - t, fields negated).",
         design="6 C10"),
@@ -122,7 +122,7 @@ CHECKS = {
         design="6 C08"),
     "C18": dict(
         level="model_checking",
-        technique="TLA+ spec Config (feature vector -> three renderings -> meaning) model-checked with TLC (MC_Config); configure() on the three generated documents validated against Config!Canon (ConfigTrace); outputs of the three runs related by PairTrace (same)",
+        technique="TLA+ spec Config (feature vector -> three renderings -> meaning) model-checked with TLC (MC_Config); configure() on the three generated documents validated against Config!Canon (ConfigTrace); outputs of the three runs related by PairTrace (same); features incl. user IBM with option and instance variable, extra forcing, version-1 vocabulary as documented (ibm_forcing, ladim.gridforce.ROMS, file names in `files`), distinct explicit grid file, every glob spelling, native date-times, period spellings, empty sections as bare YAML keys, release header vs names, default forcing module",
         text="TLC checks for every feature vector that the v2 and v1 renderings mean the canonical configuration (grid file = explicit or first forcing file also for a wildcard, sub-rectangle kept, optional sections empty or omitted); for generated feature vectors the three documents (YAML v2, TOML v2, legacy YAML v1) are written, configure() of each is projected and compared by TLC with the canonical configuration, and ladim.main on each must produce identical records, file names and particle variables (bit-for-bit digests).",
         note="Default modules (no recording plug-ins: the v1 spelling cannot name them). Diffusion off.",
         design="6 C18"),
